@@ -14,7 +14,7 @@ BASE = dict(
     SrcSet={"none"}, PlaceSet={"last"}, TitleSet={False}, SublineSet={False}, NewPageSet={False},
     PbRowSet={"column"}, PbHdrSet={True}, DivSet={"none"}, FontSet={1}, SizeSet={9}, PaperSet={"letter"},
     PgHFSet={0}, PFSet={"double"}, PLSet={"double"}, BFSet={"single"}, BLSet={"single"}, UTSet={""}, UBSet={""},
-    NDataSet={2}, GPosSet={"first"}, RelWSet={"equal"}, HdrWSet={False},
+    NDataSet={2}, GPosSet={"first"}, RelWSet={"equal"}, HdrWSet={False}, UShapeSet={"scalar"},
 )
 # deviation flags: what the code under test does today / what the properties describe
 IMPL = dict(ReserveDefaultHeader=False, BudgetContinuation=False, ChargeRenderedOnly=False, BorderByPage=True)
@@ -38,6 +38,7 @@ APPLIES = {
     "font_not_default": lambda c, ev, at: c.get("font", 1) != 1 or c.get("size", 9) != 9,
     "pageby_column_mode": lambda c, ev, at: pipeline.has_pb(c) and not pipeline.spanning(c),
     "subline": lambda c, ev, at: pipeline.has_sub(c),
+    "user_top_vector": lambda c, ev, at: c.get("ushape", "scalar") != "scalar" and c.get("utop", "") != "",
     "hdr_inherits_after_removal": lambda c, ev, at: (pipeline.has_sub(c) or pipeline.spanning(c)) and c["hdr"] != "none"
                                                     and not c.get("hdrw", False),
 }
@@ -82,7 +83,7 @@ def _o_c02(rng, c, variant):
 
 
 NP = {False, True}
-DIV3 = {"none", "second", "first"}
+DIV3 = {"none", "second", "first", "outer"}
 PR = {"column", "first_row"}
 S3 = {"plain", "pageby", "subline"}
 FS3 = {"none", "table", "para"}
@@ -164,7 +165,7 @@ PROPS = {
         # a divider must not cost page capacity either: early breaks are judged modulo the recorded C04 findings
         judge=["C05_Heads", "C05_NotStranded", "C05_NoHeadsWhenColumn", "C05_Subline", "C05_DividerKeepsRow", "C04_OnlyWhenRequiredModuloKnown"], known={},
         model=dict(quick=C(NSet={0, 4}, Heights={1}, NrowSet={3, 4}, Strategies={"pageby", "subline", "subpb"}, LevelSet={1, 2},
-                           HdrSet={"none", "explicit"}, NewPageSet=NP, PbRowSet=PR, DivSet=DIV3),
+                           HdrSet={"none", "explicit"}, NewPageSet=NP, PbRowSet=PR, DivSet={"none", "second", "outer"}),
                    thorough=C(NSet={0, 3, 5}, Heights={1}, NrowSet={3, 4, 6}, Strategies={"pageby", "subline", "subpb"}, LevelSet={1, 2},
                               HdrSet={"none", "explicit"}, NewPageSet=NP, PbRowSet=PR, DivSet=DIV3, PbHdrSet=NP),
                    inv=["M_C05_Heads", "M_C05_NotStranded", "M_C05_NoHeadsWhenColumn", "M_C05_Subline", "M_C05_DividerKeepsRow"]),
@@ -203,7 +204,8 @@ PROPS = {
         nontrivial=lambda c, pred: pred is not None and pred and pred[-1]["p"] >= 2,
     ),
     "C07": dict(
-        judge=["C07_DocTop", "C07_DocBottom", "C07_PageBottom", "C07_DataTop", "C07_Interior"], known={},
+        judge=["C07_DocTop", "C07_DocBottom", "C07_PageBottom", "C07_DataTop", "C07_DataTopModuloKnown", "C07_Interior"],
+        known={"C07_DataTop": "C07_DataTopModuloKnown"},
         model=dict(quick=C(NSet={3}, Heights={1}, NrowSet={3, 7}, Strategies={"plain", "pageby"}, HdrSet={"none", "explicit"},
                            FootSet=FS3, SrcSet=FS3, PlaceSet=PL3, **STY1),
                    thorough=C(NSet={4}, Heights={1}, NrowSet={3, 4, 7}, Strategies={"plain", "pageby"}, HdrSet={"none", "explicit"},
@@ -215,13 +217,13 @@ PROPS = {
                                  FootSet=FS3, SrcSet=FS3, PlaceSet=PL3, **STY1)),
                    dict(consts=C(NSet={1, 4, 6}, Heights={1, 2}, NrowSet={3, 4, 7, 30}, Strategies=S3,
                                  HdrSet={"none", "explicit", "default", "explicit2"}, FootSet=FS3, SrcSet=FS3, PlaceSet=PL3, NewPageSet=NP,
-                                 PbRowSet=PR, PbHdrSet=NP, **STY), simulate=800)],
+                                 PbRowSet=PR, PbHdrSet=NP, UShapeSet={"scalar", "col", "matrix"}, **STY), simulate=800)],
             thorough=[dict(consts=C(NSet={4}, Heights={1}, NrowSet={3, 4, 7}, Strategies={"plain", "pageby"}, HdrSet={"none", "explicit"},
                                     FootSet=FS3, SrcSet=FS3, PlaceSet=PL3, PFSet={"double"}, PLSet={"thick"}, BFSet={"dotted"}, BLSet={"dashed"},
                                     UTSet={"", "wavy"}, UBSet={"", "triple"})),
                       dict(consts=C(NSet={1, 4, 6, 13}, Heights={1, 2}, NrowSet={3, 4, 7, 30}, Strategies=ALL_STRAT, LevelSet={1, 2},
                                     HdrSet={"none", "explicit", "default", "explicit2"}, FootSet=FS3, SrcSet=FS3, PlaceSet=PL3, NewPageSet=NP,
-                                    PbRowSet=PR, PbHdrSet=NP, **STY), simulate=12000)]),
+                                    PbRowSet=PR, PbHdrSet=NP, UShapeSet={"scalar", "col", "matrix"}, **STY), simulate=12000)]),
         nontrivial=lambda c, pred: pred is not None and pred and pred[-1]["p"] >= 2,
     ),
     "C08": dict(
@@ -485,8 +487,11 @@ def space_size(k):
     total = 0
     flat = 1
     for name in ("PbHdrSet", "NrowSet", "HdrSet", "PlaceSet", "TitleSet", "SublineSet", "FontSet", "SizeSet", "PaperSet", "PgHFSet",
-                 "PFSet", "PLSet", "BFSet", "BLSet", "UTSet", "UBSet", "NDataSet", "GPosSet", "RelWSet"):
+                 "PFSet", "PLSet", "BFSet", "BLSet", "NDataSet", "GPosSet", "RelWSet"):
         flat *= len(k[name])
+    # the shape of the user borders is a dimension only when a user border is set
+    ush = len(k.get("UShapeSet", {"scalar"}))
+    flat *= sum((ush if (a or b) else 1) for a in k["UTSet"] for b in k["UBSet"])
     # hdrw depends on hdr; pfoot/psrc on foot/src: handle by explicit sums
     nhdr_expl = len([h for h in k["HdrSet"] if h in ("explicit", "explicit2")])
     hdr_factor = (len(k["HdrSet"]) - nhdr_expl + nhdr_expl * len(k["HdrWSet"])) / len(k["HdrSet"])
